@@ -307,9 +307,23 @@ def _dataset(conv):
     import xarray
     if conv == 'cf1d':
         ds = builders.cf1d(2, 3, lat_bounds=numpy.array([[9.5, 10.5], [10.5, 11.5]]),
+                           lon_bounds=numpy.array([[99.0, 101.0], [101.0, 103.0], [103.0, 105.0]]),
                            data_vars={'temp': (('t', 'y', 'x'), numpy.arange(12.0).reshape(2, 2, 3))})
     elif conv == 'cf2d':
-        ds = builders.cf2d(2, 2, data_vars={'temp': (('t', 'y', 'x'), numpy.arange(8.0).reshape(2, 2, 2))})
+        jj, ii = numpy.meshgrid(numpy.arange(2.0), numpy.arange(2.0), indexing='ij')
+        lat, lon = 10.0 + jj + 0.25 * ii, 100.0 + 2.0 * ii - 0.5 * jj
+        off = [(-1, -1), (1, -1), (1, 1), (-1, 1)]
+        ds = builders.cf2d(2, 2, lat=lat, lon=lon, lon_bounds=numpy.stack([lon + a for a, b in off], axis=-1),
+                           lat_bounds=numpy.stack([lat + b * 0.5 for a, b in off], axis=-1),
+                           data_vars={'temp': (('t', 'y', 'x'), numpy.arange(8.0).reshape(2, 2, 2))})
+    elif conv == 'cf1d-wide':
+        # geometry variables of more than 64 KiB (a 9000-column axis, bounds twice that)
+        n = 9000
+        lon = 100.0 + numpy.arange(n) * 0.01
+        ds = builders.cf1d(2, n, lon=lon, lon_bounds=numpy.stack([lon - 0.005, lon + 0.005], axis=-1))
+    elif conv == 'cf2d-wide':
+        jj, ii = numpy.meshgrid(numpy.arange(100.0), numpy.arange(110.0), indexing='ij')
+        ds = builders.cf2d(100, 110, lat=10.0 + 0.01 * jj + 0.001 * ii, lon=100.0 + 0.02 * ii - 0.001 * jj)
     elif conv == 'shoc_standard':
         ds = builders.shoc_standard(2, 2, data_vars={'temp': (('t',) + builders.SHOC_DIMS['face'], numpy.arange(8.0).reshape(2, 2, 2))})
     elif conv == 'ugrid':
@@ -391,6 +405,21 @@ def real_dataset_checks(tier):
             notes.append(f'{conv}: could not build a Fortran-ordered twin')
         elif key_of(alt) != k0:
             V(f'real:{conv}:memory-layout', 'identical geometry values give the same key whatever the memory layout of the arrays', g)
+    # every value of a geometry variable takes part, however long the variable is
+    for conv, g in (('cf1d-wide', 'lon'), ('cf1d-wide', 'lon_bnds'), ('cf2d-wide', 'lat'), ('cf2d-wide', 'lon')):
+        ds = _dataset(conv)
+        k0 = key_of(ds)
+        size = ds[g].size
+        for pos in (0, size // 3, size // 2, size - 2, size - 1) + ((size - 4097, 8192, 8193) if tier != 'quick' else ()):
+            d2 = ds.copy(deep=True)
+            flat = d2[g].values.reshape(-1)
+            flat[pos] += 0.125
+            if not numpy.shares_memory(flat, d2[g].values):
+                notes.append(f'{conv}:{g}: reshape copied')
+                continue
+            if key_of(d2) == k0:
+                V(f'real:{conv}:{g}[{pos} of {size}]', 'a single edit of a geometry variable changes the cache key',
+                  f'value {pos} of {size} of {g} (array of {ds[g].values.nbytes} bytes)')
     # histories on ONE dataset object: key, edit a geometry variable in place, key again
     from emsarray.operations.cache import make_cache_key
     for conv in ('cf1d', 'ugrid'):
@@ -412,11 +441,12 @@ def real_dataset_checks(tier):
         if make_cache_key(ds) == k2:
             V(f'real:{conv}:history', 'a single edit of a geometry variable changes the cache key', f'in-place attribute edit of {g} after earlier calls')
     # other interpreter, other hash seed
-    code = ("import sys; sys.path.insert(0, '/repo/src'); sys.path.insert(0, %r); "
+    repo_src = os.path.join(os.environ.get('SYMX_DEV_REPO', '/repo'), 'src')
+    code = ("import sys; sys.path.insert(0, %r); sys.path.insert(0, %r); "
             "from harness import c16; import json; "
-            "print(json.dumps({c: c16.key_of(c16._dataset(c)) for c in ('cf1d','cf2d','shoc_standard','ugrid')}))" % VERIF)
+            "print(json.dumps({c: c16.key_of(c16._dataset(c)) for c in ('cf1d','cf2d','shoc_standard','ugrid')}))" % (repo_src, VERIF))
     outs = []
-    for seed in ('1', '12345'):
+    for seed in ('1', '12345', '2', '3', '77', '4242') if tier != 'quick' else ('1', '12345', '2', '3'):
         envv = dict(os.environ, PYTHONHASHSEED=seed)
         p = subprocess.run([sys.executable, '-W', 'ignore', '-c', "import sys; sys.path.append(%r + '/.deps'); " % VERIF + code],
                            capture_output=True, text=True, env=envv, timeout=300)
